@@ -117,6 +117,10 @@ impl<'a, 'b> HeaderWriter<'a, 'b> {
 
         let mut count = I::zero();
         for (v, i) in iter {
+            // more objects than the count field of this qualifier can express
+            if count == I::max() {
+                return Err(scursor::WriteError::NumericOverflow);
+            }
             i.write(self.cursor)?;
             v.write(self.cursor)?;
             count.increment();
